@@ -69,7 +69,12 @@ pub fn check_c04(tier: Tier) -> i32 {
     let count = (e.scenarios)(tier);
     println!("C04 crash-sim: seed {} tier {} scenarios {}", seed, tier.name(), count);
     let batch = orch::run_engine(&e, seed, tier, count, orch::WORKERS);
+    // the ledger also across retained lines (one compiler + machine kept over a whole session)
+    let sess = orch::engine("session-ledger").unwrap();
+    let ns = (sess.scenarios)(tier);
+    let bs = orch::run_engine(&sess, seed, tier, ns, orch::WORKERS);
     let mut harness_errors = batch.harness_errors.clone();
+    harness_errors.extend(bs.harness_errors.clone());
     let selftest = if batch.violations.is_empty() && harness_errors.is_empty() {
         match determinism_selftest(&e, seed, tier, &batch, 32) {
             Ok(n) => n,
@@ -81,10 +86,12 @@ pub fn check_c04(tier: Tier) -> i32 {
     } else {
         0
     };
-    let violations = batch.violations.clone();
+    let mut violations = batch.violations.clone();
+    violations.extend(bs.violations.clone());
     let nviol = violations.len();
     let verdict = orch::conclude("C04", violations, &harness_errors);
     let acc = &batch.acc;
+    let sacc = &bs.acc;
     let wall = t0.elapsed().as_secs_f64();
     let runs = acc.counters.get("runs").cloned().unwrap_or(0);
     let nontrivial = acc.distinct.get("nontrivial_cases").map(|s| s.len()).unwrap_or(0);
@@ -99,8 +106,11 @@ pub fn check_c04(tier: Tier) -> i32 {
         "coverage": {
             "evaluations": runs,
             "distinct_nontrivial": nontrivial,
-            "rule": "seeded type-directed generator of allocating programs (with and without a planted natural failure); for every program the fault-free run of N steps is repeated with an injected error return at instruction k for EVERY k in [0,N) (programs over 400 steps: first 64, last 64, 128 seeded points), each under the shipped collection schedule and under one buggified schedule (extra collections at seeded instruction boundaries or at every boundary); after each run the shadow-heap ledger is audited (nothing left, nothing released twice, result graph valid and releasable once) and after every collection alive == reachable(true roots). A case = (program, crash point, schedule); it is non-trivial when at least one heap object allocated at run time (not a literal) was alive at the crash point; distinct = distinct hash of (program text, k, schedule).",
+            "rule": "seeded type-directed generator of allocating programs (with and without a planted natural failure); for every program the fault-free run of N steps is repeated with an injected error return at instruction k for EVERY k in [0,N) (programs over 400 steps: first 64, last 64, 128 seeded points), each under the shipped collection schedule and under one buggified schedule (extra collections at seeded instruction boundaries or at every boundary); after each run the shadow-heap ledger is audited (nothing left, nothing released twice, result graph valid and releasable once) and after every collection alive == reachable(true roots). A case = (program, crash point, schedule); it is non-trivial when at least one heap object allocated at run time (not a literal) was alive at the crash point; distinct = distinct hash of (program text, k, schedule). Compile-time abort points: the compilation of every program is also cut short at its k-th compilation step (statement or expression, any depth) for every k (programs over 600 steps: first 100, last 100, 200 seeded), ledger audited after each. session-ledger: seeded retained sessions of the C17 engine (one Compiler+VM over up to 12 lines, failing lines, injected run-time and compile-time failures, a caller that releases unreferenced values early or only at the end), judged here by the ledger only: when the pair is dropped and the caller has released what it was handed nothing is left, nothing was released twice, every value handed out was valid.",
             "samples": acc.samples,
+            "retained_sessions": get(sacc, "session_sessions"),
+            "retained_session_lines": get(sacc, "session_lines"),
+            "retained_session_counters": counters_json(sacc),
             "exhaustive": false,
             "exhaustive_note": format!("the crash-point dimension is enumerated completely for {} of {} programs; programs and collection schedules are sampled", exhaustive_programs, acc.counters.get("programs").cloned().unwrap_or(0)),
             "programs": acc.counters.get("programs"),
@@ -127,11 +137,13 @@ pub fn check_c04(tier: Tier) -> i32 {
     });
     orch::write_evidence("C04", &ev);
     println!(
-        "C04: {} programs, {} runs, {} simulated steps, {} crash points fired, {} distinct non-trivial cases, {} violation(s), {} known, {:.1}s",
+        "C04: {} programs, {} runs, {} simulated steps, {} run-time + {} compile-time crash points fired, {} retained sessions (session-ledger), {} distinct non-trivial cases, {} violation(s), {} known, {:.1}s",
         acc.counters.get("programs").cloned().unwrap_or(0),
         runs,
         acc.counters.get("sim_steps").cloned().unwrap_or(0),
         acc.counters.get("fault_crash_fired").cloned().unwrap_or(0),
+        acc.counters.get("fault_compile_crash_fired").cloned().unwrap_or(0),
+        get(sacc, "session_sessions"),
         nontrivial,
         verdict.reported,
         verdict.known,
